@@ -563,13 +563,13 @@ func TestC06(t *testing.T) {
 		c06Free(r, caseID, g, cfg)
 	})
 	// windows inside the driver / detector hand-shake (see c06_handshake_test.go)
-	nWin := r.N(20, 200)
+	nWin := r.N(25, 250)
 	parallel(nWin, workers, func(i int) {
 		caseID := fmt.Sprintf("window/%d", i)
 		if !r.Only(caseID) {
 			return
 		}
-		c06Window(r, caseID, rng(r, "window", i), []string{"crash-in-reorg", "crash-after-process", "retrack-window", "unprocessable-block"}[i%4])
+		c06Window(r, caseID, rng(r, "window", i), []string{"crash-in-reorg", "crash-after-process", "retrack-window", "unprocessable-block", "same-hash-retrack"}[i%5])
 	})
 	nSlow := r.N(3, 16)
 	parallel(nSlow, workers, func(i int) {
@@ -688,7 +688,7 @@ func TestC06(t *testing.T) {
 		})
 	})
 	r.Set("concurrent_starts_that_converged", int(concStarted.Load()))
-	finish(t, r, r.N(25, 60), "free/*", "rewind/replace*", "rewind/none*", "fork/replaces-served*", "concurrent-start/*", "window/crash-in-reorg*", "window/crash-after-process*", "window/slow-store*", "window/retrack-window*", "window/unprocessable-block*")
+	finish(t, r, r.N(25, 60), "free/*", "rewind/replace*", "rewind/none*", "fork/replaces-served*", "concurrent-start/*", "window/crash-in-reorg*", "window/crash-after-process*", "window/slow-store*", "window/retrack-window*", "window/unprocessable-block*", "window/same-hash-retrack*")
 }
 
 // blockedAggkitGoroutines returns the (de-duplicated) stacks of goroutines that have been waiting
